@@ -86,6 +86,16 @@ func genBucketCase(r *Rng, p *Profile) *microCase {
 		attr = r.Pick([]string{"email", "age", "score", "name", "key", "tags", "nested", "beta", "nums", "/email", "/nested/a/b", "//", "/a~2", "/age", "kind", "anonymous"})
 	}
 	sec := r.P(0.5)
+	return bucketCase(ctx, isExp, seed, kind, key, mode, attr, salt, sec)
+}
+
+// bucketCorpus: hash prefixes whose low bits sit next to a rounding tie -- dividing in double precision and narrowing
+// afterwards lands on the neighbouring single-precision value (about one input in 2^30; found by search against a seeded
+// change, kept as corpus)
+var bucketCorpus = [][3]string{{"flag", "salt", "user-77163032"}, {"flag", "salt", "user-2906055148"},
+	{"checkout-flow", "a1b2c3", "user-6072306"}, {"rollout-flag", "salt", "user-916"}, {"rollout-flag", "salt", "user-925"}}
+
+func bucketCase(ctx ldcontext.Context, isExp bool, seed *int64, kind, key string, mode int, attr, salt string, sec bool) *microCase {
 	var sd ldvalue.OptionalInt
 	var seedT *T
 	if seed != nil {
@@ -480,6 +490,11 @@ func cmdMicro(prop string, n int, seed uint64, driver, out string) (*Result, err
 				res.Notes = append(res.Notes, "hooks unavailable: bucket/buffer/hex micro cases skipped (black-box eval cases only)")
 				n = 0
 				continue
+			}
+			if i < 2*len(bucketCorpus) {
+				c := bucketCorpus[i/2]
+				mc = bucketCase(ldcontext.New(c[2]), i%2 == 1, nil, "", c[0], 0, "", c[1], false)
+				break
 			}
 			switch i % 6 {
 			case 4:
